@@ -49,8 +49,13 @@ fn probe(pool: &dyn Pool, nf: usize, matching: bool) {
     }
 }
 
+pub static CAUGHT: std::sync::atomic::AtomicUsize = std::sync::atomic::AtomicUsize::new(0);
+
 fn one_call(pool: &dyn Pool, f: usize, matching: bool) {
     let r = pool.call(f, matching);
+    if r.is_err() {
+        CAUGHT.fetch_add(1, SeqCst);
+    }
     let res = match r {
         Ok(who) => who,
         Err(msg) => match panics::classify(&msg).0 {
@@ -66,6 +71,7 @@ fn run_life(pool: &dyn Pool, nf: usize, life: &Value) {
     let kind = s(life, "kind");
     let steps = life.get("steps").and_then(|x| x.as_array()).cloned().unwrap_or_default();
     let p0 = panics::COUNT.load(SeqCst);
+    let c0 = CAUGHT.load(SeqCst);
     let res = catch_unwind(AssertUnwindSafe(|| {
         if kind == "prev" {
             let _g = in_lib(InjectorPP::prevent);
@@ -131,6 +137,15 @@ fn run_life(pool: &dyn Pool, nf: usize, life: &Value) {
                 }
                 "probe" => probe(pool, nf, true),
                 "call" => one_call(pool, i(st, "f") as usize, st.get("match").and_then(|x| x.as_bool()).unwrap_or(true)),
+                "call_unwind" => {
+                    // a call whose panic (rejected arguments / over-called) is NOT caught by the
+                    // caller: it unwinds the scope that owns the injector
+                    let f = i(st, "f") as usize;
+                    let m = st.get("match").and_then(|x| x.as_bool()).unwrap_or(true);
+                    emit(json!({"ev":"CallUnwind","f":format!("f{f}"),"match":m}));
+                    let r = pool.call_nocatch(f, m);
+                    emit(json!({"ev":"Call","f":format!("f{f}"),"match":m,"res":r,"after_unwind_call":true}));
+                }
                 "diff" => {}
                 "panic" => {
                     emit(json!({"ev":"UserPanic"}));
@@ -142,7 +157,8 @@ fn run_life(pool: &dyn Pool, nf: usize, life: &Value) {
     }));
     set_in_lib(false);
     watch::diff_all("drop-end");
-    let pn = panics::COUNT.load(SeqCst) - p0;
+    // panics raised by fakes and caught by the caller are not part of an unwinding episode
+    let pn = (panics::COUNT.load(SeqCst) - p0) - (CAUGHT.load(SeqCst) - c0);
     let (outcome, cls, exp, act, msg) = match &res {
         Ok(()) => ("ok", "", 0, 0, String::new()),
         Err(p) => {
